@@ -145,6 +145,11 @@ fn main() {
     *pu.reference_sequence_id_mut() = Some(0);
     *pu.alignment_start_mut() = Position::new(5);
     round_trip("N2 placed unmapped read without bases", None, vec![pu]);
+    // P1: placed unmapped read whose bases would run past the reference end (unmapped mate near the end)
+    let mut near_end = unmapped("u1", b"ACGTACGT", &[30; 8]);
+    *near_end.reference_sequence_id_mut() = Some(0);
+    *near_end.alignment_start_mut() = Position::new(SQ0.len() - 2);
+    round_trip("P1 placed unmapped read (8 bases) at the third-last reference base", None, vec![near_end]);
     let mut nameless = mapped("x", 0, 0, 1, 8);
     *nameless.name_mut() = None;
     round_trip("N3 read without a name followed by named reads", None, vec![nameless, mapped("r1", 0, 0, 3, 8), mapped("r2", 0, 0, 5, 8)]);
